@@ -27,6 +27,11 @@ class LinearCache:
         self.inverse = None
         self.logabsdet = None
 
+    def __deepcopy__(self, memo):
+        # The cached tensors are derived from the parameters and may hang on an autograd graph, which
+        # cannot be deep-copied; the copy of a transform starts with an empty cache and recomputes them.
+        return LinearCache()
+
 
 class Linear(Transform):
     """Abstract base class for linear transforms that parameterize a weight matrix."""
